@@ -989,3 +989,265 @@ Theorem te_sub_u32_zero_prefix_normalised :
   sub_dec_u32 (raw_layout [(true, false, 1%nat)]) [0; 0; 0; 0] = Some None
   /\ sub_enc_u32 (raw_layout [(true, false, 1%nat)]) None = Some [].
 Proof. split; reflexivity. Qed.
+
+(* ================================================================== *)
+(* DictAdapter over a U8-prefixed Collection (ExtraParams); model: Spec/ExtraParamsModel.v *)
+From HV Require Import Spec.ExtraParamsModel.
+
+Section DictCollProofs.
+  Variable K V : Type.
+  Variable keqb : K -> K -> bool.
+  Hypothesis keqb_spec : forall a b, keqb a b = true <-> a = b.
+
+  Lemma kexistsb_in k ks : existsb (keqb k) ks = true <-> In k ks.
+  Proof.
+    rewrite existsb_exists. split.
+    - intros (x & Hx & E). apply keqb_spec in E. now subst.
+    - intros H. exists k. split; [exact H|now apply keqb_spec].
+  Qed.
+
+  Lemma kdict_set_fresh k v (d : list (K * V)) : ~ In k (map fst d) -> kdict_set keqb k v d = d ++ [(k, v)].
+  Proof.
+    induction d as [|[k' v'] d IH]; intros Hn; [reflexivity|].
+    cbn [kdict_set]. destruct (keqb k k') eqn:E.
+    - apply keqb_spec in E. subst. exfalso. apply Hn. left; reflexivity.
+    - cbn [app]. f_equal. apply IH. intros Hin. apply Hn. right; exact Hin.
+  Qed.
+
+  Lemma kdict_set_keys k v (d : list (K * V)) :
+    map fst (kdict_set keqb k v d) = if existsb (keqb k) (map fst d) then map fst d else map fst d ++ [k].
+  Proof.
+    induction d as [|[k' v'] d IH]; [reflexivity|].
+    cbn [kdict_set map existsb fst]. destruct (keqb k k') eqn:E; cbn [orb map fst]; [reflexivity|].
+    rewrite IH. destruct (existsb (keqb k) (map fst d)); reflexivity.
+  Qed.
+
+  Lemma kdict_set_in k v (d : list (K * V)) x :
+    In x (kdict_set keqb k v d) -> In x d \/ x = (k, v).
+  Proof.
+    induction d as [|[k' v'] d IH]; cbn [kdict_set].
+    - intros [<-|[]]. right. reflexivity.
+    - destruct (keqb k k') eqn:E.
+      + intros [<-|Hin]; [|left; right; exact Hin]. apply keqb_spec in E. subst. right. reflexivity.
+      + intros [<-|Hin]; [left; left; reflexivity|].
+        destruct (IH Hin) as [H|H]; [left; right; exact H|right; exact H].
+  Qed.
+
+  Lemma kdict_set_length k v (d : list (K * V)) : (length (kdict_set keqb k v d) <= S (length d))%nat.
+  Proof.
+    induction d as [|[k' v'] d IH]; cbn [kdict_set length]; [lia|].
+    destruct (keqb k k'); cbn [length]; lia.
+  Qed.
+
+  Definition dict_inv (P : K * V -> Prop) (d : list (K * V)) : Prop := Forall P d /\ NoDup (map fst d).
+
+  Lemma nodup_snoc (l : list K) k : NoDup l -> ~ In k l -> NoDup (l ++ [k]).
+  Proof.
+    induction l as [|x l IH]; intros Hnd Hn.
+    - constructor; [intros []|constructor].
+    - inversion Hnd; subst. cbn [app]. constructor.
+      + intros Hin. apply in_app_or in Hin as [Hin|[<-|[]]]; [contradiction|]. apply Hn. left; reflexivity.
+      + apply IH; [assumption|]. intros Hin. apply Hn. right; exact Hin.
+  Qed.
+
+  Lemma kdict_set_inv (P : K * V -> Prop) k v d : P (k, v) -> dict_inv P d -> dict_inv P (kdict_set keqb k v d).
+  Proof.
+    intros Hp [Hall Hnd]. split.
+    - apply Forall_forall. intros x Hx. rewrite Forall_forall in Hall.
+      destruct (kdict_set_in k v d x Hx) as [Hin | ->]; [apply Hall, Hin|exact Hp].
+    - rewrite kdict_set_keys. destruct (existsb (keqb k) (map fst d)) eqn:E; [exact Hnd|].
+      apply nodup_snoc; [exact Hnd|]. intros Hin. apply kexistsb_in in Hin. congruence.
+  Qed.
+
+  Lemma to_dict_gen_inv (P : K * V -> Prop) es acc :
+    Forall P es -> dict_inv P acc ->
+    dict_inv P (fold_left (fun d e => kdict_set keqb (fst e) (snd e) d) es acc)
+    /\ (length (fold_left (fun d e => kdict_set keqb (fst e) (snd e) d) es acc) <= length acc + length es)%nat.
+  Proof.
+    revert acc. induction es as [|[k v] es IH]; intros acc Hall Hacc; cbn [fold_left fst snd length].
+    - split; [exact Hacc|lia].
+    - inversion Hall as [|? ? Hp Hall']; subst.
+      destruct (IH (kdict_set keqb k v acc) Hall' (kdict_set_inv P k v acc Hp Hacc)) as [I1 I2].
+      split; [exact I1|]. pose proof (kdict_set_length k v acc). lia.
+  Qed.
+
+  Lemma to_dict_inv (P : K * V -> Prop) es :
+    Forall P es -> dict_inv P (to_dict keqb es) /\ (length (to_dict keqb es) <= length es)%nat.
+  Proof.
+    intros H. destruct (to_dict_gen_inv P es [] H) as [I1 I2]; [split; constructor|].
+    split; [exact I1|exact I2].
+  Qed.
+
+  Lemma to_dict_gen_nodup (es acc : list (K * V)) :
+    NoDup (map fst acc ++ map fst es) ->
+    fold_left (fun d e => kdict_set keqb (fst e) (snd e) d) es acc = acc ++ es.
+  Proof.
+    revert acc. induction es as [|[k v] es IH]; intros acc H; [now rewrite app_nil_r|].
+    cbn [fold_left fst snd]. rewrite kdict_set_fresh.
+    - rewrite IH; [now rewrite <- app_assoc|]. rewrite map_app. cbn [map fst]. rewrite <- app_assoc. exact H.
+    - cbn [map fst] in H. apply NoDup_remove_2 in H. intros Hin. apply H. apply in_or_app. left; exact Hin.
+  Qed.
+
+  (* a dict whose keys are distinct is unchanged by dict() *)
+  Theorem to_dict_nodup (es : list (K * V)) : NoDup (map fst es) -> to_dict keqb es = es.
+  Proof. intros H. unfold to_dict. now rewrite to_dict_gen_nodup. Qed.
+
+  Lemma dec_entries_rt (c : codec (K * V)) (P : K * V -> Prop) es rest :
+    codec_rt c P -> Forall P es ->
+    dec_entries c (length es) (flat_map (enc c) es ++ rest) = Some (es, rest).
+  Proof.
+    intros Hrt. induction es as [|e es IH]; intros Hall; [reflexivity|].
+    inversion Hall as [|? ? Hp Hall']; subst. cbn [length dec_entries flat_map].
+    rewrite <- app_assoc. rewrite Hrt by exact Hp. rewrite IH by exact Hall'. reflexivity.
+  Qed.
+
+  Lemma dec_entries_sound (c : codec (K * V)) (P : K * V -> Prop) n bs es r :
+    codec_sound c P -> dec_entries c n bs = Some (es, r) -> Forall P es /\ length es = n.
+  Proof.
+    intros Hs. revert bs es r. induction n as [|n IH]; intros bs es r H; cbn [dec_entries] in H.
+    - inversion H; subst. split; [constructor|reflexivity].
+    - destruct (dec c bs) as [[e r1]|] eqn:E1; [|discriminate].
+      destruct (dec_entries c n r1) as [[es' r2]|] eqn:E2; [|discriminate].
+      inversion H; subst. destruct (IH _ _ _ E2) as [I1 I2].
+      split; [constructor; [eapply Hs; eassumption|exact I1]|cbn; now rewrite I2].
+  Qed.
+
+  (* what the decoder does with ANY entry list on the wire, repeated keys included *)
+  Theorem dictcoll_dec_general (c : codec (K * V)) (P : K * V -> Prop) es rest :
+    codec_rt c P -> Forall P es -> (length es <= 255)%nat ->
+    dec_dictcoll keqb c (N.of_nat (length es) :: flat_map (enc c) es ++ rest) = Some (to_dict keqb es, rest).
+  Proof.
+    intros Hrt Hall Hlen. cbn [dec_dictcoll]. rewrite Nat2N.id.
+    rewrite (dec_entries_rt c P es rest Hrt Hall). reflexivity.
+  Qed.
+
+  (* DictAdapter(Collection(U8, entry)) round-trips every dict of at most 255 entries (keys distinct, as in any dict) *)
+  Theorem dictcoll_rt (c : codec (K * V)) (P : K * V -> Prop) d rest :
+    codec_rt c P -> dict_inv P d -> (length d <= 255)%nat ->
+    exists b, enc_dictcoll c d = Some b /\ dec_dictcoll keqb c (b ++ rest) = Some (d, rest).
+  Proof.
+    intros Hrt [Hall Hnd] Hlen. unfold enc_dictcoll.
+    assert (H : (255 <? N.of_nat (length d)) = false) by lia. rewrite H.
+    eexists. split; [reflexivity|]. cbn [app].
+    rewrite (dictcoll_dec_general c P d rest Hrt Hall Hlen). rewrite to_dict_nodup by exact Hnd. reflexivity.
+  Qed.
+
+  (* one-pass fixed point for every accepted payload (count byte below 256) *)
+  Theorem dictcoll_fixed_point (c : codec (K * V)) (P : K * V -> Prop) n t d r :
+    codec_rt c P -> codec_sound c P -> n < 256 ->
+    dec_dictcoll keqb c (n :: t) = Some (d, r) ->
+    exists b', enc_dictcoll c d = Some b' /\ forall rest, dec_dictcoll keqb c (b' ++ rest) = Some (d, rest).
+  Proof.
+    intros Hrt Hs Hn H. cbn [dec_dictcoll] in H.
+    destruct (dec_entries c (N.to_nat n) t) as [[es r']|] eqn:E; [|discriminate].
+    inversion H; subst. destruct (dec_entries_sound c P _ _ _ _ Hs E) as [Hall Hlen].
+    destruct (to_dict_inv P es Hall) as [Hinv Hle].
+    assert (Hl : (length (to_dict keqb es) <= 255)%nat) by lia.
+    destruct (dictcoll_rt c P (to_dict keqb es) [] Hrt Hinv Hl) as (b & Eb & _).
+    exists b. split; [exact Eb|]. intros rest.
+    destruct (dictcoll_rt c P (to_dict keqb es) rest Hrt Hinv Hl) as (b2 & Eb2 & D2).
+    rewrite Eb in Eb2. inversion Eb2; subst. exact D2.
+  Qed.
+
+  (* the registered wrapper (ObjectUpdate.ObjectData.ExtraParams): None <-> b"" *)
+  Theorem sub_dictcoll_fixed_point (c : codec (K * V)) (P : K * V -> Prop) bs v :
+    codec_rt c P -> codec_sound c P -> Forall (fun b => b < 256) bs ->
+    sub_dec_dictcoll keqb c bs = Some v ->
+    exists b', sub_enc_dictcoll c v = Some b' /\ sub_dec_dictcoll keqb c b' = Some v.
+  Proof.
+    intros Hrt Hs Hb H. destruct bs as [|n t]; cbn [sub_dec_dictcoll] in H.
+    - inversion H; subst. exists []. split; reflexivity.
+    - destruct (dec_dictcoll keqb c (n :: t)) as [[d r]|] eqn:E; [|discriminate].
+      destruct r; [|discriminate]. inversion H; subst.
+      inversion Hb as [|? ? Hn _]; subst.
+      destruct (dictcoll_fixed_point c P n t d [] Hrt Hs Hn E) as (b' & Eb & D).
+      exists b'. split; [exact Eb|]. specialize (D []). rewrite app_nil_r in D.
+      unfold sub_dec_dictcoll. destruct b' as [|x xs].
+      + unfold enc_dictcoll in Eb. destruct (255 <? N.of_nat (length d)); discriminate.
+      + rewrite D. reflexivity.
+  Qed.
+
+  Theorem sub_dictcoll_rt (c : codec (K * V)) (P : K * V -> Prop) d :
+    codec_rt c P -> dict_inv P d -> (length d <= 255)%nat ->
+    exists b, sub_enc_dictcoll c (Some d) = Some b /\ sub_dec_dictcoll keqb c b = Some (Some d).
+  Proof.
+    intros Hrt Hinv Hlen. destruct (dictcoll_rt c P d [] Hrt Hinv Hlen) as (b & Eb & D).
+    exists b. split; [exact Eb|]. rewrite app_nil_r in D. unfold sub_dec_dictcoll.
+    destruct b as [|x xs].
+    - unfold enc_dictcoll in Eb. destruct (255 <? N.of_nat (length d)); discriminate.
+    - rewrite D. reflexivity.
+  Qed.
+End DictCollProofs.
+
+(* ---- raw entries: U16 type, U32 length, blob ---- *)
+Definition raw_entry_dom (e : N * bytes) : Prop := fst e < 65536 /\ N.of_nat (length (snd e)) < 4294967296.
+
+Lemma raw_entry_rt : codec_rt raw_entry_codec raw_entry_dom.
+Proof.
+  intros [k blob] r [Hk Hl]. cbn [fst snd] in Hk, Hl. cbn [raw_entry_codec enc dec fst snd le16].
+  pose proof (le32_decode _ Hl) as Hd. unfold le16, le32 in Hd |- *. cbn [app].
+  assert (M : forall x, x mod 256 mod 256 = x mod 256) by (intros x; apply N.mod_mod; lia).
+  rewrite !M. rewrite Hd.
+  assert (Hlt : (N.of_nat (length (blob ++ r)) <? N.of_nat (length blob)) = false).
+  { apply N.ltb_ge. rewrite app_length. lia. }
+  rewrite Hlt. cbv zeta. rewrite Nat2N.id.
+  rewrite firstn_app, Nat.sub_diag, firstn_all. cbn [firstn]. rewrite app_nil_r.
+  rewrite skipn_app, Nat.sub_diag, skipn_all. cbn [skipn app].
+  assert (Hk2 : k mod 256 + 256 * (k / 256 mod 256) = k).
+  { pose proof (N.div_mod k 256 ltac:(lia)). assert (k / 256 < 256) by (apply N.div_lt_upper_bound; lia).
+    rewrite (N.mod_small (k / 256) 256) by assumption. lia. }
+  rewrite Hk2. reflexivity.
+Qed.
+
+Lemma raw_entry_sound : codec_sound raw_entry_codec raw_entry_dom.
+Proof.
+  intros bs [k blob] r. cbn [raw_entry_codec dec].
+  destruct bs as [|t0 [|t1 [|b0 [|b1 [|b2 [|b3 rr]]]]]]; try discriminate.
+  set (len := b0 mod 256 + 256 * (b1 mod 256) + 65536 * (b2 mod 256) + 16777216 * (b3 mod 256)).
+  destruct (N.ltb_spec (N.of_nat (length rr)) len) as [|Hge]; [discriminate|].
+  intros [= E1 E2 E3]. subst k blob r. split; cbn [fst snd].
+  - change (t0 mod 256 + 256 * (t1 mod 256) < 65536).
+    pose proof (N.mod_lt t0 256 ltac:(lia)). pose proof (N.mod_lt t1 256 ltac:(lia)). lia.
+  - rewrite firstn_length_le by lia. rewrite N2Nat.id.
+    pose proof (N.mod_lt b0 256 ltac:(lia)). pose proof (N.mod_lt b1 256 ltac:(lia)).
+    pose proof (N.mod_lt b2 256 ltac:(lia)). pose proof (N.mod_lt b3 256 ltac:(lia)). lia.
+Qed.
+
+Lemma nodup_keys_NoDup ks : nodup_keys ks = true -> NoDup ks.
+Proof.
+  induction ks as [|k r IH]; intros H; [constructor|].
+  cbn [nodup_keys] in H. apply andb_prop in H as [H1 H2]. constructor; [|apply IH; exact H2].
+  intros Hin. assert (E : existsb (N.eqb k) r = true).
+  { apply existsb_exists. exists k. split; [exact Hin|apply N.eqb_refl]. }
+  rewrite E in H1. discriminate.
+Qed.
+
+Theorem raw_dictcoll_rt d rest : raw_dict_ok d = true ->
+  exists b, enc_dictcoll raw_entry_codec d = Some b /\ dec_dictcoll N.eqb raw_entry_codec (b ++ rest) = Some (d, rest).
+Proof.
+  unfold raw_dict_ok. intros H. apply andb_prop in H as [H Hlen]. apply andb_prop in H as [Hall Hnd].
+  apply (dictcoll_rt N bytes N.eqb N.eqb_eq raw_entry_codec raw_entry_dom d rest); [exact raw_entry_rt| |lia].
+  split; [|apply nodup_keys_NoDup; exact Hnd].
+  apply Forall_forall. intros e He. rewrite forallb_forall in Hall. specialize (Hall e He).
+  unfold raw_entry_ok in Hall. apply andb_prop in Hall as [H1 H2]. split; lia.
+Qed.
+
+Theorem raw_dictcoll_fixed_point bs v : Forall (fun b => b < 256) bs ->
+  sub_dec_dictcoll N.eqb raw_entry_codec bs = Some v ->
+  exists b', sub_enc_dictcoll raw_entry_codec v = Some b' /\ sub_dec_dictcoll N.eqb raw_entry_codec b' = Some v.
+Proof.
+  intros Hb H.
+  exact (sub_dictcoll_fixed_point N bytes N.eqb N.eqb_eq raw_entry_codec raw_entry_dom bs v raw_entry_rt raw_entry_sound Hb H).
+Qed.
+
+(* refutation of byte identity: a payload repeating a key is accepted; the dict keeps the first position with the
+   last value and the re-encoded payload has one entry less *)
+Theorem dictcoll_duplicate_refuted :
+  exists b d b',
+    sub_dec_dictcoll N.eqb raw_entry_codec b = Some (Some d)
+    /\ sub_enc_dictcoll raw_entry_codec (Some d) = Some b' /\ b' <> b
+    /\ d = [(16, [3]); (32, [2])].
+Proof.
+  exists [3; 16; 0; 1; 0; 0; 0; 1; 32; 0; 1; 0; 0; 0; 2; 16; 0; 1; 0; 0; 0; 3]. eexists. eexists.
+  split; [reflexivity|]. split; [reflexivity|]. split; [discriminate|reflexivity].
+Qed.
